@@ -1,4 +1,5 @@
 import Cdecao.Proofs.Sel
+import Cdecao.Proofs.SelComplete
 /-! # C20 — k-subset enumeration used for room branching is exact -/
 namespace Props
 open S
@@ -27,5 +28,62 @@ theorem C20_empty (n k : Nat) (h : k = 0 ∨ k > n) : selections n k = [] := sel
 theorem C20_size_hint (n k i : Nat) (l : List Nat) (hr : rank 0 l = i) :
     sizeHint n k none = Nat.choose n k ∧ sizeHint n k (some l) = Nat.choose n k - (i + 1) :=
   sizeHint_exact n k i l hr
+
+/-! ## completeness (Proofs/SelComplete.lean) -/
+
+/-- (i) the yielded lists are pairwise distinct -/
+theorem C20_nodup (n k : Nat) : (selections n k).Nodup := selections_nodup n k
+
+/-- membership characterisation, `k ≥ 1`: exactly the strictly increasing lists of `k` indices
+    below `n` -/
+theorem C20_mem (n k : Nat) (hk : 1 ≤ k) (l : List Nat) :
+    l ∈ selections n k ↔ l.Pairwise (· < ·) ∧ (∀ a ∈ l, a < n) ∧ l.length = k :=
+  mem_selections n k hk l
+
+/-- (ii) completeness: every strictly increasing list of `k ≥ 1` naturals below `n` is yielded
+    exactly once -/
+theorem C20_complete (n k : Nat) (hk : 1 ≤ k) (l : List Nat) (hinc : l.Pairwise (· < ·))
+    (hlt : ∀ a ∈ l, a < n) (hlen : l.length = k) :
+    l ∈ selections n k ∧ (selections n k).count l = 1 :=
+  ⟨selections_complete n k hk l hinc hlt hlen, selections_count n k hk l hinc hlt hlen⟩
+
+/-- the same with the vocabulary of `C20_selections` -/
+theorem C20_complete_valid (n k : Nat) (hk : 1 ≤ k) (l : List Nat) (hv : Valid n 0 l)
+    (hlen : l.length = k) : l ∈ selections n k :=
+  selections_complete_valid n k hk l hv hlen
+
+example : (selections 5 3).count [0, 2, 3] = 1 :=
+  (C20_complete 5 3 (by omega) [0, 2, 3] (by decide) (by decide) rfl).2
+
+/-- in terms of subsets: every `k`-subset of `{0, …, n-1}`, as its sorted list, is yielded exactly
+    once, and only such lists are yielded -/
+theorem C20_subsets (n k : Nat) (hk : 1 ≤ k) :
+    (∀ s : Finset Nat, s ⊆ Finset.range n → s.card = k → (selections n k).count (s.sort (· ≤ ·)) = 1) ∧
+    (∀ l ∈ selections n k, ∃ s : Finset Nat, s ⊆ Finset.range n ∧ s.card = k ∧ s.sort (· ≤ ·) = l) :=
+  ⟨fun s hs hc => selections_finset n k hk s hs hc, fun l hl => selections_finset_conv n k l hl⟩
+
+/-- the combinatorial rank is a bijection from the selections onto `[0, choose n k)` -/
+theorem C20_rank_bij (n k : Nat) :
+    (∀ l₁ l₂, Sel n k l₁ → Sel n k l₂ → rank 0 l₁ = rank 0 l₂ → l₁ = l₂) ∧
+    (∀ l, Sel n k l → rank 0 l < Nat.choose n k) ∧
+    (∀ i, i < Nat.choose n k → ∃ l, Sel n k l ∧ rank 0 l = i) :=
+  ⟨rank_inj n k, rank_lt n k, rank_surj n k⟩
+
+/-- (iii) the iterator of util.rs and the recursive colex enumeration of the node model agree, in
+    order, for `k ≥ 1` (for `k = 0` the iterator yields nothing, `colexIdx n 0 = [[]]`) -/
+theorem C20_eq_colexIdx (n k : Nat) (hk : 1 ≤ k) : selections n k = N2.colexIdx n k :=
+  selections_eq_colexIdx n k hk
+
+/-- hence the element selections used by the node model are the iterator's index selections applied
+    to the list, for every `k` -/
+theorem C20_node_selections.{u} {α : Type u} (l : List α) (k : Nat) :
+    N2.selections l k = (selections l.length k).map (fun idx => idx.filterMap (fun i => l[i]?)) :=
+  node_selections_eq l k
+
+#print axioms C20_nodup
+#print axioms C20_complete
+#print axioms C20_subsets
+#print axioms C20_eq_colexIdx
+#print axioms C20_node_selections
 
 end Props
